@@ -957,6 +957,47 @@ def substitute_module_aliases(prog) -> int:
                     changed = True
             if not changed:
                 break
+    # class level: `_parse = staticmethod(ip_address)` in a class body, a name the rules do not know and no subclass overrides:
+    # `self._parse(b)` inside that class's methods is `ip_address(b)`
+    for m in prog.modules.values():
+        kn = set(known.get(m.modname, []))
+        for c in [n for n in ast.walk(m.tree) if isinstance(n, ast.ClassDef)]:
+            for st in list(c.body):
+                if not (isinstance(st, ast.Assign) and len(st.targets) == 1 and isinstance(st.targets[0], ast.Name)):
+                    continue
+                name = st.targets[0].id
+                v = st.value
+                if f"{c.name}.{name}" in kn or not (isinstance(v, ast.Call) and isinstance(v.func, ast.Name) and v.func.id == "staticmethod" and len(v.args) == 1
+                                                    and isinstance(v.args[0], (ast.Name, ast.Attribute)) and dotted(v.args[0])):
+                    continue
+                if sum(1 for x in c.body if isinstance(x, ast.Assign) and any(isinstance(t, ast.Name) and t.id == name for t in x.targets)) != 1:
+                    continue
+                try:
+                    subs = prog.subclasses(c)
+                except Exception:
+                    subs = []
+                if any((isinstance(x, ast.FunctionDef) and x.name == name) or (isinstance(x, ast.Assign) and any(isinstance(t, ast.Name) and t.id == name for t in x.targets))
+                       for sc in subs for x in sc.body):
+                    continue
+                target = v.args[0]
+                n_rep = 0
+                for fn in [f for f in c.body if isinstance(f, (ast.FunctionDef, ast.AsyncFunctionDef))]:
+                    me = (func_params(fn) or [None])[0]
+                    for n in list(ast.walk(fn)):
+                        for fld, val in ast.iter_fields(n):
+                            vals = val if isinstance(val, list) else [val]
+                            for k, x in enumerate(vals):
+                                if isinstance(x, ast.Attribute) and x.attr == name and isinstance(x.ctx, ast.Load) and isinstance(x.value, ast.Name) and x.value.id in (me, c.name):
+                                    rep = copy_ast(target)
+                                    for y in ast.walk(rep):
+                                        ast.copy_location(y, x)
+                                        y._module = m
+                                    if isinstance(val, list):
+                                        val[k] = rep
+                                    else:
+                                        setattr(n, fld, rep)
+                                    n_rep += 1
+                total += bool(n_rep)
     return total
 
 
@@ -1281,6 +1322,41 @@ class _Spellings(ast.NodeTransformer):
         return node
 
 
+class _MapOfHelper(ast.NodeTransformer):
+    """list(map(_helper, xs)) -> [_helper(x) for x in xs]   (likewise tuple/set/sorted(...) and a bare map() used as an iterable) for a
+    module-level function the rules do not know: the call form lets the inliner put the helper's body where the loop is."""
+    def __init__(self, new_helpers):
+        self.new_helpers = new_helpers
+        self.n = 0
+
+    def visit_Call(self, node):
+        self.generic_visit(node)
+        if isinstance(node.func, ast.Name) and node.func.id == "map" and len(node.args) == 2 and not node.keywords \
+                and isinstance(node.args[0], ast.Name) and node.args[0].id in self.new_helpers:
+            self.n += 1
+            var = f"elem__m{self.n}"
+            call = ast.Call(func=node.args[0], args=[ast.Name(id=var, ctx=ast.Load())], keywords=[])
+            comp = ast.comprehension(target=ast.Name(id=var, ctx=ast.Store()), iter=node.args[1], ifs=[], is_async=0)
+            par = getattr(node, "_parent", None)
+            as_list = isinstance(par, ast.Call) and isinstance(par.func, ast.Name) and par.func.id == "list" and par.args == [node] and not par.keywords
+            new = ast.GeneratorExp(elt=call, generators=[comp])
+            new._as_list = as_list
+            for x in ast.walk(new):
+                ast.copy_location(x, node)
+                if hasattr(node, "_module"):
+                    x._module = node._module
+            return new
+        if isinstance(node.func, ast.Name) and node.func.id == "list" and len(node.args) == 1 and not node.keywords and isinstance(node.args[0], ast.GeneratorExp) \
+                and getattr(node.args[0], "_as_list", False):
+            g = node.args[0]
+            lc = ast.ListComp(elt=g.elt, generators=g.generators)
+            ast.copy_location(lc, node)
+            if hasattr(node, "_module"):
+                lc._module = node._module
+            return lc
+        return node
+
+
 class _Suppress(ast.NodeTransformer):
     """with contextlib.suppress(E1, E2): BODY   ->   try: BODY  except (E1, E2): pass      (single context item, no `as`)"""
     def visit_With(self, node):
@@ -1307,6 +1383,15 @@ def canonical_spellings(prog) -> None:
     for m in prog.modules.values():
         if any(isinstance(n, ast.With) for n in ast.walk(m.tree)) and "suppress" in m.src:
             m.tree = _Suppress().visit(m.tree)
+        if "map(" in m.src:
+            from .inline import load_inventory
+            inv = load_inventory()
+            helpers = {st.name for st in m.tree.body if isinstance(st, ast.FunctionDef) and f"{m.modname}.{st.name}" not in inv}
+            if helpers:
+                for n in ast.walk(m.tree):
+                    for ch in ast.iter_child_nodes(n):
+                        ch._parent = n
+                m.tree = _MapOfHelper(helpers).visit(m.tree)
         shadowed = any(isinstance(n, (ast.FunctionDef, ast.ClassDef)) and n.name in ("dict", "list", "tuple") for n in ast.walk(m.tree)) or any(
             isinstance(n, ast.Name) and n.id in ("dict", "list", "tuple") and isinstance(n.ctx, ast.Store) for n in ast.walk(m.tree))
         if not shadowed:
